@@ -651,7 +651,10 @@ fn gen_raw_shape(rng: &mut Rng, ox: i64, oy: i64) -> String {
             q.rotate_left(r);
             format!("(polygon {})", fmt_shape_pts(&t(q)))
         }, // U
-        3 => { let a = rng.range(4, 16); let w = rng.range(1, a - 1).max(1); format!("(polygon {})", fmt_shape_pts(&t(vec![(0, 0), (a, 0), (a, w), (w, w), (w, a), (0, a)]))) } // L
+        3 => { let a = rng.range(4, 16); let w = rng.range(1, a - 1).max(1);
+            // every third L lists its first vertex again at the end (an explicitly closed polygon)
+            let mut q = vec![(0, 0), (a, 0), (a, w), (w, w), (w, a), (0, a)]; if a % 3 == 0 { q.push((0, 0)); }
+            format!("(polygon {})", fmt_shape_pts(&t(q))) } // L
         4 => { let r = rng.range(2, 8); let c = rng.range(1, r); format!("(polygon {})", fmt_shape_pts(&t(vec![(c, 0), (r, 0), (r + c, c), (r + c, r), (r, r + c), (c, r + c), (0, r), (0, c)]))) } // 45°
         5 => if rng.coin() { format!("(polygon {})", fmt_shape_pts(&t(vec![(0, 0), (rng.range(6, 16), rng.range(1, 5)), (rng.range(1, 5), rng.range(8, 16))]))) } else {
             // four-vertex shapes that are NOT rectangles: right trapezoids (three axis-aligned edges) and a
